@@ -13,8 +13,10 @@ open Tsh Tsh.Tr
     everything else is `raw`. -/
 inductive BLine
   | raw (text : String)
-  | label (name : String)                        -- `:name`
+  | label (name : String)                        -- `:name`   (function labels, `end`)
   | goto (name : String)                         -- `goto :name`
+  | clabel (name : String)                       -- `:name`   label of an if / loop construct (allocated from a counter)
+  | cgoto (name : String)                        -- `goto :name`   jump to such a label
   | call (name : String) (args : List String)    -- `call :name a1 a2`
   | opn (text : String)                          -- a line that ends with `(` and opens a block
   | close                                        -- `)`
@@ -26,6 +28,8 @@ def BLine.render : BLine → String
   | .raw t => t
   | .label n => ":" ++ n
   | .goto n => "goto :" ++ n
+  | .clabel n => ":" ++ n
+  | .cgoto n => "goto :" ++ n
   | .call n args => "call :" ++ n ++ " " ++ " ".intercalate args
   | .opn t => t
   | .close => ")"
@@ -227,19 +231,19 @@ def ifStartOp (c : String) : BM Unit := do
 
 def ifEndOp : BM Unit := do
   let l ← currentIf
-  addLine (.goto l)
+  addLine (.cgoto l)
   addLine .close
-  addLine (.label l)
+  addLine (.clabel l)
   modify fun s => { s with ifs := s.ifs.drop 1 }
 
 def elseIfStartOp (c : String) : BM Unit := do
   let l ← currentIf
-  addLine (.goto l)
+  addLine (.cgoto l)
   addLine (.elseIfOpen (ifStartLine c))
 
 def elseStartOp : BM Unit := do
   let l ← currentIf
-  addLine (.goto l)
+  addLine (.cgoto l)
   addLine .elseOpen
 
 def forStartOp : BM Unit := do
@@ -248,7 +252,7 @@ def forStartOp : BM Unit := do
   let s ← get
   let l ← currentFor
   addLine (.raw ("set \"" ++ currentForVar s ++ "=\""))
-  addLine (.label l)
+  addLine (.clabel l)
 
 def forIncrementStartOp : BM Unit := do
   let s ← get
@@ -262,18 +266,18 @@ def forIncrementEndOp : BM Unit := do
 def forEndTail : List String → BM Unit
   | e :: rest => do
       modify fun s => { s with endLabels := rest, fors := s.fors.drop 1 }
-      addLine (.label e)
+      addLine (.clabel e)
   | [] => Tr.panic "index out of range [-1]"
 
 def forEndOp : BM Unit := do
   let l ← currentFor
-  addLine (.goto l)
+  addLine (.cgoto l)
   addLine .close
   let s ← get
   forEndTail s.endLabels
 
 def brkTail : List String → BM Unit
-  | e :: _ => addLine (.goto e)
+  | e :: _ => addLine (.cgoto e)
   | [] => fail "break outside of a loop is not supported"
 
 def brkOp : BM Unit := do
@@ -282,7 +286,7 @@ def brkOp : BM Unit := do
 
 def contOp : BM Unit := do
   let l ← currentFor
-  addLine (.goto l)
+  addLine (.cgoto l)
 
 def panicOp (v : String) : BM Unit := do
   callEcho [v]
